@@ -21,6 +21,9 @@ type Gate struct {
 	open    bool
 	waiting []chan struct{}
 	arrived chan string
+	// onParked, when set, is called by a goroutine that parks (after it is
+	// registered as waiting); if the gate is open it is called as well.
+	onParked func(tag string)
 }
 
 func NewGate() *Gate { return &Gate{arrived: make(chan string, 64)} }
@@ -35,11 +38,19 @@ func (g *Gate) Enter(tag string) {
 	}
 	if g.open {
 		g.mu.Unlock()
+		if g.onParked != nil {
+			g.onParked(tag)
+		}
 		return
 	}
 	ch := make(chan struct{})
 	g.waiting = append(g.waiting, ch)
 	g.mu.Unlock()
+	// announce only after being registered, so that a Release that follows
+	// the announcement cannot miss this goroutine
+	if g.onParked != nil {
+		g.onParked(tag)
+	}
 	select {
 	case g.arrived <- tag:
 	default:
